@@ -58,6 +58,7 @@ pub struct Player {
     pub last_ledger: Value,
     pub light_obs: bool,
     pub skip_obs: bool,
+    pub cell_order: Vec<String>,
 }
 
 fn hexs(b: &[u8]) -> String {
@@ -107,6 +108,7 @@ impl Player {
             last_ledger: json!({"bals": [], "supply": []}),
             light_obs: false,
             skip_obs: false,
+            cell_order: Vec::new(),
         };
         for a in ["idx", "ctrl", "dead"] {
             p.u_addr.insert(a.to_string());
@@ -128,7 +130,7 @@ impl Player {
         let Some(b) = b256_of(t) else { return json!("?") };
         let s = b.as_slice();
         if s[0..31].iter().all(|x| *x == 0) {
-            json!(s[31] as u64)
+            json!(format!("{}", s[31]))
         } else {
             json!(format!("T{}", hex::encode(&s[0..5])))
         }
@@ -155,8 +157,15 @@ impl Player {
         let b = u64_of(&rc["blockNumber"]).unwrap_or(0);
         let i = u64_of(&rc["transactionIndex"]).unwrap_or(0);
         self.u_idx.insert((b, i));
+        let out = if self.traces_on {
+            let tr = self.inst.call("debug_traceTransaction", json!([rc["transactionHash"]])).ok().cloned().unwrap_or(Value::Null);
+            self.abs_output(tr["output"].as_str().unwrap_or("0x"))
+        } else {
+            "off".to_string()
+        };
         json!({
             "id": id,
+            "out": out,
             "status": u64_of(&rc["status"]).unwrap_or(9),
             "logs": self.abs_logs(&rc["logs"]),
             "created": created,
@@ -165,6 +174,131 @@ impl Player {
             "from": self.names.name_of_json(&rc["from"]),
             "to": self.names.name_of_json(&rc["to"]),
         })
+    }
+
+    /// abstract form of returned bytes: empty | w:<small word> | code:<known runtime> | ?<prefix>
+    pub fn abs_output(&self, hexstr: &str) -> String {
+        let bytes = hex::decode(hexstr.trim_start_matches("0x")).unwrap_or_default();
+        if bytes.is_empty() {
+            return "empty".into();
+        }
+        if bytes == self.cell_rt {
+            return "code:cell".into();
+        }
+        if bytes == self.probe_rt {
+            return "code:probe".into();
+        }
+        if bytes.len() == 32 && bytes[0..24].iter().all(|x| *x == 0) {
+            return format!("w:{}", u64::from_be_bytes(bytes[24..32].try_into().unwrap()));
+        }
+        format!("?{}:{}", bytes.len(), hex::encode(&bytes[0..bytes.len().min(6)]))
+    }
+
+    fn eth_call_obj(&mut self, step: &Value) -> (Value, Value) {
+        let from = step["from"].as_str().unwrap_or("dead").to_string();
+        let (kind, bytes) = self.data_for(step);
+        let mut o = serde_json::Map::new();
+        o.insert("from".into(), json!(self.addr_hex(&from)));
+        if kind == "call" {
+            let to = step["to"].as_str().unwrap_or("dead").to_string();
+            o.insert("to".into(), json!(self.addr_hex(&to)));
+        }
+        o.insert("data".into(), json!(hexs(&bytes)));
+        (Value::Object(o), Self::abs_tx(step, &kind, &from))
+    }
+
+    fn do_ethcall(&mut self, step: &Value) -> Value {
+        let (obj, abs) = self.eth_call_obj(step);
+        let r = self.inst.call("eth_call", json!([obj]));
+        let (ok, out) = match &r {
+            Outcome::Ok(v) => (true, self.abs_output(v.as_str().unwrap_or("0x"))),
+            Outcome::Err { data, .. } => (false, self.abs_output(data.as_ref().and_then(|d| d.as_str()).unwrap_or("0x"))),
+            _ => (false, "crash".to_string()),
+        };
+        json!({"ev": "EthCall", "tx": abs, "ok": ok, "out": out, "res": if matches!(r, Outcome::Panic(_) | Outcome::Timeout) { r.res() } else { "ok" }, "err": r.err_text()})
+    }
+
+    /// eth_getLogs with an abstract filter; no projection is attached (reads are covered by C10)
+    fn do_getlogs(&mut self, step: &Value) -> Value {
+        let h = self.inst.call("eth_blockNumber", json!([])).ok().and_then(u64_of).unwrap_or(0) as i64;
+        let fb = step["fb"].as_i64().unwrap_or(-1);
+        let tb = step["tb"].as_i64().unwrap_or(-1);
+        let from = if fb < 0 { -1 } else { (h - fb).max(0) };
+        let to = if tb < 0 { -1 } else { (h - tb).max(0) };
+        let addr_name = match step["addr"].as_str().unwrap_or("NULL") {
+            "A" => self.cell_order.get(0).cloned().unwrap_or("dead".into()),
+            "B" => self.cell_order.get(1).cloned().unwrap_or("dead".into()),
+            x => x.to_string(),
+        };
+        let mut f = serde_json::Map::new();
+        if from >= 0 {
+            f.insert("fromBlock".into(), json!(format!("{}", from)));
+        }
+        if to >= 0 {
+            f.insert("toBlock".into(), json!(format!("{:#x}", to)));
+        }
+        if addr_name != "NULL" {
+            f.insert("address".into(), json!(self.addr_hex(&addr_name)));
+        }
+        let word = |v: u64| format!("0x{:064x}", v);
+        let mut topics = Vec::new();
+        for p in step["topics"].as_array().cloned().unwrap_or_default() {
+            let vs: Vec<u64> = p["v"].as_array().cloned().unwrap_or_default().iter().filter_map(|x| x.as_u64()).collect();
+            match p["k"].as_str().unwrap_or("any") {
+                "one" => topics.push(json!(word(vs[0]))),
+                "alt" => topics.push(Value::Array(vs.iter().map(|v| json!(word(*v))).collect())),
+                _ => topics.push(Value::Null),
+            }
+        }
+        if step["topics"].is_array() {
+            f.insert("topics".into(), Value::Array(topics));
+        }
+        let r = self.inst.call("eth_getLogs", json!([Value::Object(f)]));
+        let mut logs = Vec::new();
+        if let Some(list) = r.ok().and_then(|v| v.as_array().cloned()) {
+            for l in list {
+                let id = b256_of(&l["transactionHash"]).map(|x| self.names.tx_token(&x)).unwrap_or("NULL".into());
+                let a = self.names.name_of_json(&l["address"]);
+                let t: Vec<Value> = l["topics"].as_array().cloned().unwrap_or_default().iter().map(Self::abs_topic).collect();
+                logs.push(json!({"b": u64_of(&l["blockNumber"]).unwrap_or(u64::MAX), "li": u64_of(&l["logIndex"]).unwrap_or(u64::MAX), "id": id, "a": a, "t": t}));
+            }
+        }
+        json!({"ev": "GetLogs", "filter": {"addr": addr_name, "topics": step["topics"], "from": from, "to": to},
+               "ok": r.is_ok(), "logs": logs, "res": if matches!(r, Outcome::Panic(_) | Outcome::Timeout) { r.res() } else { "ok" }, "err": r.err_text()})
+    }
+
+    fn do_estimate(&mut self, step: &Value) -> Value {
+        let (obj, abs) = self.eth_call_obj(step);
+        let r = self.inst.call("eth_estimateGas", json!([obj]));
+        let (ok, gas) = match &r {
+            Outcome::Ok(v) => (true, u64_of(v).unwrap_or(0)),
+            _ => (false, 0),
+        };
+        json!({"ev": "Estimate", "tx": abs, "ok": ok, "gas": gas.to_string(), "res": if matches!(r, Outcome::Panic(_) | Outcome::Timeout) { r.res() } else { "ok" }, "err": r.err_text()})
+    }
+
+    fn do_callmany(&mut self, step: &Value) -> Value {
+        let mut objs = Vec::new();
+        let mut abss = Vec::new();
+        for c in step["calls"].as_array().cloned().unwrap_or_default() {
+            self.note_common(&c);
+            let (o, a) = self.eth_call_obj(&c);
+            objs.push(o);
+            abss.push(a);
+        }
+        let method = if step["estimate"].as_bool().unwrap_or(false) { "eth_estimateGasMany" } else { "eth_callMany" };
+        let r = self.inst.call(method, json!([objs]));
+        let (ok, outs) = match &r {
+            Outcome::Ok(v) => (true, v.as_array().cloned().unwrap_or_default().iter().map(|x| json!(self.abs_output(x.as_str().unwrap_or("0x")))).collect::<Vec<_>>()),
+            _ => (false, vec![]),
+        };
+        // the index named in "Execution with index i reverted"
+        let failidx = match &r {
+            Outcome::Err { message, .. } => message.split("index ").nth(1).and_then(|x| x.split_whitespace().next()).and_then(|x| x.parse::<i64>().ok()).unwrap_or(-1),
+            _ => -1,
+        };
+        json!({"ev": "CallMany", "estimate": method == "eth_estimateGasMany", "txs": abss, "ok": ok, "outs": outs, "failidx": failidx,
+               "res": if matches!(r, Outcome::Panic(_) | Outcome::Timeout) { r.res() } else { "ok" }, "err": r.err_text()})
     }
 
     // ------------------------------------------------------------------------------------------
@@ -342,6 +476,10 @@ impl Player {
                 }
                 json!({"ev": "Restart", "res": if r.is_ok() { "ok" } else { "err" }, "err": r.err().unwrap_or_default()})
             }
+            "getlogs" => return self.do_getlogs(step),
+            "ethcall" => self.do_ethcall(step),
+            "estimate" => self.do_estimate(step),
+            "callmany" => self.do_callmany(step),
             "reorg" => {
                 let r = self.inst.call("brc20_reorg", json!([step["n"]]));
                 json!({"ev": "Reorg", "n": step["n"], "res": r.res(), "err": r.err_text()})
@@ -466,6 +604,9 @@ impl Player {
                 if abs_tx["ckind"] == json!("cell") {
                     if let Some(c) = ev["rc"]["created"].as_str() {
                         if c != "NULL" {
+                            if !self.cell_order.contains(&c.to_string()) {
+                                self.cell_order.push(c.to_string());
+                            }
                             self.u_cell_addr.insert(c.to_string());
                         }
                     }
